@@ -15,6 +15,10 @@ type Genuine struct {
 	RespSig   *SignSpec     `json:"respSig,omitempty"`
 	AsrtSig   []*SignSpec   `json:"asrtSig,omitempty"` // one per assertion when assertions are signed
 	Enc       []*EncSpec    `json:"enc,omitempty"`     // one per assertion, nil entries = plaintext; empty = none
+	// InheritNS: the encrypted plaintext is the assertion's serialisation AS IT STANDS in the Response — namespace
+	// prefixes declared on the Response are not re-declared inside the fragment (XML-Enc 4.3.3 allows the
+	// plaintext to depend on its context; the decrypted element is put back into that very context)
+	InheritNS bool `json:"inheritNS,omitempty"`
 	Layout    Layout        `json:"layout"`
 	Pres      Presentation  `json:"pres"`
 }
@@ -60,6 +64,12 @@ func (g *Genuine) Tree() (*etree.Element, error) {
 				return nil, err
 			}
 			plain := Serialize(det, Layout{})
+			if g.InheritNS && !g.SignsResponse() {
+				// only under an unsigned Response: a signed Response reaches decryption as goxmldsig's
+				// exclusive-canonical copy, whose root no longer carries declarations it does not itself use, so a
+				// context-dependent plaintext cannot be resolved there (see DESIGN.md section 9) — outside the domain
+				plain = Serialize(a.Copy(), Layout{})
+			}
 			ea, err := g.Enc[i].EncryptElement(plain, g.NS)
 			if err != nil {
 				return nil, fmt.Errorf("encrypt assertion %d: %v", i, err)
@@ -139,6 +149,7 @@ func GenGenuine(sp SPConfig, trusted []string, mo ModelOpts, withEnc bool) *rapi
 				}
 				g.Enc = append(g.Enc, GenEncSpec(to).Draw(t, "enc"))
 			}
+			g.InheritNS = rapid.IntRange(0, 3).Draw(t, "inheritNS") == 0
 		}
 		g.Layout = GenLayout(true).Draw(t, "layout")
 		g.Pres = GenPresentation().Draw(t, "pres")
